@@ -75,6 +75,7 @@ struct RunConfig {
     bool use_forced = false;
     long step_budget = 50000000;
     uint8_t fill = 0xCB;
+    int omp_team = 0;               // OpenMP flavour: size of the simulated team of the parallel region (0 = 1)
 };
 
 enum EndKind { END_NORMAL = 0, END_DEADLOCK, END_LIVELOCK, END_STEP_BUDGET, END_ABORT, END_MONITOR_STOP };
